@@ -158,7 +158,31 @@ def gen_weighted_case(rng: random.Random, idx: int, long_n: int = 0):
     if not ops:
         ops.append({"op": "init"})
     every = 1 if len(ops) <= 14 or (not long_n and rng.random() < 0.3) else max(2, len(ops) // 6)
-    return {"kind": "weighted", "cls": cls, "subs": subs, "family": vf + "/" + wf, "ops": ops, "snap_every": every}
+    case = {"kind": "weighted", "cls": cls, "subs": subs, "family": vf + "/" + wf, "ops": ops, "snap_every": every}
+    return case if long_n else add_init_listener(rng, case)
+
+
+def add_init_listener(rng: random.Random, case):
+    """An event-based tally gets, in half of the cases, a listener of INITIALIZED_EVENT that reads the statistic inside
+    notify and (mode 'register') registers a seed observation; such a case contains an initialize() after some calls."""
+    if not case["cls"].startswith("EventBased") or rng.random() < 0.5:
+        return case
+    ops = case["ops"]
+    case["init_listener"] = rng.choice(["read", "register", "register"])
+    if len(ops) >= 2 and not any(o["op"] == "init" for o in ops[1:]):
+        ops.insert(rng.randint(1, len(ops) - (1 if len(ops) > 2 else 0)), {"op": "init"})
+    if case["init_listener"] == "register":
+        for k, o in enumerate(ops):
+            if o["op"] != "init" or rng.random() >= 0.85:
+                continue
+            o["sv"] = L.enc(rng.choice([5.0, 2, -1.5, 0.25]))
+            if case["kind"] == "weighted":
+                o["s1"] = L.enc(rng.choice([1.0, 2, 0.5, 0.0]))
+            else:                          # the time of the next call (so that the later timestamps stay non-decreasing)
+                nxt = [L.dec(q["t"]) for q in ops[k + 1:] if "t" in q]
+                nxt = [x for x in nxt if L.is_number(x) and not isinstance(x, bool) and x == x and abs(x) < 1e300]
+                o["s1"] = L.enc(nxt[0] if nxt else 0.0)
+    return case
 
 
 def gen_times(rng: random.Random, fam: str, n: int):
@@ -282,7 +306,8 @@ def gen_ts_case(rng: random.Random, idx: int, long_n: int = 0):
     if not ops:
         ops.append({"op": "init"})
     every = 1 if len(ops) <= 14 or (not long_n and rng.random() < 0.3) else max(2, len(ops) // 6)
-    return {"kind": "timestamp", "cls": cls, "subs": subs, "family": vf + "/" + tf, "ops": ops, "snap_every": every}
+    case = {"kind": "timestamp", "cls": cls, "subs": subs, "family": vf + "/" + tf, "ops": ops, "snap_every": every}
+    return case if long_n else add_init_listener(rng, case)
 
 
 # ------------------------------------------------------------------ implementation side
@@ -345,6 +370,10 @@ def run_case(case):
         names = [n for n, _ in W_EVENTS] + ["INITIALIZED_EVENT"] if case["subs"] == "all" else ["N_EVENT"]
         for nme in names:
             t.add_listener(getattr(StatEvents, nme), col)
+    lis = None
+    if case.get("init_listener") and case["cls"].startswith("EventBased"):   # subscribed AFTER the collector
+        lis = L.make_init_listener(case["init_listener"], lambda s: snap(s, ts), lambda s, seed: s.register(*seed))
+        t.add_listener(StatEvents.INITIALIZED_EVENT, lis)
     every = case["snap_every"]
     nops = len(case["ops"])
     steps = []
@@ -353,6 +382,9 @@ def run_case(case):
         if col is not None:
             col.events.clear()
         rec["pre"] = snap(t, ts)
+        if op["op"] == "init" and lis is not None:
+            lis.seen, lis.errors = [], []
+            lis.seed = (L.dec_impl(op["s1"]), L.dec_impl(op["sv"])) if "s1" in op else None
         try:
             if op["op"] == "init":
                 t.initialize()
@@ -379,7 +411,9 @@ def run_case(case):
         if col is not None:
             rec["pub"] = list(col.events)
         rec["post"] = snap(t, ts)
-        if (i % every == every - 1) or i >= nops - 2:
+        if op["op"] == "init" and lis is not None:
+            rec["init_seen"], rec["init_errors"] = list(lis.seen), list(lis.errors)
+        if (i % every == every - 1) or i >= nops - 2 or "init_seen" in rec:
             rec["snap"] = rec["post"]
         rec["self"] = t
         steps.append(rec)
@@ -545,6 +579,57 @@ def check_publication(case, rec, want_first, who, i, stamp=None):
     return None
 
 
+def not_fresh(sn):
+    """None when a getter snapshot is that of a (timestamp) weighted tally with no observation"""
+    if sn["n"] != 0 or isinstance(sn["n"], bool):
+        return f"n() = {sn['n']!r}"
+    if sn["wsum"] != ("v", 0.0):
+        return f"weighted_sum() = {sn['wsum'][1]!r}"
+    for k in ["min", "max"] + [k for k, _, _ in GETTERS]:
+        if sn[k][0] != "v" or sn[k][1] == sn[k][1]:
+            return f"{GNAME.get(k, k)}() = {sn[k][1]!r}"
+    if sn["sw"] not in (None, 0.0):
+        return f"sum of weights = {sn['sw']!r}"
+    if "active" in sn and (sn["active"] != ("v", True) or sn["last_value"] != ("v", 0.0)):
+        return f"isactive(), last_value() = {sn['active'][1]!r}, {sn['last_value'][1]!r}"
+    return None
+
+
+def check_init_listener(case, op, rec, who, i):
+    """the INITIALIZED_EVENT listener of the case: notified exactly once, what it read inside notify is a freshly
+    initialised statistic, and its registration of the seed observation went through"""
+    if "init_seen" not in rec:
+        return None
+    if len(rec["init_seen"]) != 1:
+        return (f"{who}-initialized-event-count-wrong", f"initialize() notified the INITIALIZED_EVENT listener {len(rec['init_seen'])} times", i)
+    stale = not_fresh(rec["init_seen"][0])
+    if stale:
+        return (f"{who}-initialized-event-before-reset",
+                f"{case['cls']}.initialize(): when INITIALIZED_EVENT was delivered the statistic still reported {stale}; "
+                "at that moment no observation has been registered since the initialisation", i)
+    if rec["init_errors"]:
+        return (f"{who}-register-inside-initialized-notification-raises",
+                f"registering ({L.show(op['s1'])}, {L.show(op['sv'])}) from the INITIALIZED_EVENT listener raised {rec['init_errors'][0]}", i)
+    return None
+
+
+def init_seeded(case, op, rec):
+    return "init_seen" in rec and case.get("init_listener") == "register" and "s1" in op
+
+
+def check_init_publication(case, op, rec, who, i, stamp=None):
+    if rec["pub"] is None or case["subs"] != "all":
+        return None
+    seeded = init_seeded(case, op, rec)
+    names = [e[0] for e in rec["pub"]]
+    want = ["INITIALIZED_EVENT"] + ([n for n, _ in W_EVENTS] if seeded else [])
+    if names != want or rec["pub"][0][1] is not rec["self"]:
+        return (f"{who}-initialize-publication-wrong", f"initialize published {names}, expected {want}", i)
+    if seeded:
+        return check_publication(case, {**rec, "pub": rec["pub"][1:]}, float(L.dec(op["sv"])), who, i, stamp=stamp)
+    return None
+
+
 def oracle_weighted(case, steps):
     who = "weighted"
     obs, polluted, nontrivial = [], False, False
@@ -569,9 +654,14 @@ def oracle_weighted(case, steps):
             return (f"{who}-invalid-observation-not-rejected", f"{case['cls']}.{call} ended with {rec['kind']}, expected {ek}", i), False
         if op["op"] == "init":
             obs, polluted = [], False
-            if rec["pub"] is not None and case["subs"] == "all" and \
-                    (len(rec["pub"]) != 1 or rec["pub"][0][0] != "INITIALIZED_EVENT" or rec["pub"][0][1] is not rec["self"]):
-                return (f"{who}-initialize-publication-wrong", f"initialize published {[e[0] for e in rec['pub']]}", i), False
+            bad = check_init_listener(case, op, rec, who, i)
+            if bad:
+                return bad, False
+            if init_seeded(case, op, rec):     # the listener's observation is the first one since this initialisation
+                obs = [(L.dec(op["s1"]), L.dec(op["sv"]))]
+            bad = check_init_publication(case, op, rec, who, i)
+            if bad:
+                return bad, False
         elif ek != "ok":
             if snap_key(rec["pre"]) != snap_key(rec["post"]):
                 return (f"{who}-rejected-observation-changes-state",
@@ -667,6 +757,14 @@ def oracle_ts(case, steps):
             pts, last_ts, closed, polluted, n_adv = [], None, False, False, 0
             if post["active"] != ("v", True):
                 return (f"{who}-initialize-does-not-reopen", f"isactive() = {post['active']!r} after initialize", i), False
+            bad = check_init_listener(case, op, rec, who, i)
+            if bad:
+                return bad, False
+            if init_seeded(case, op, rec):     # the listener's (time, value) is the first point since this initialisation
+                pts, last_ts = [(L.dec(op["s1"]), L.dec(op["sv"]))], L.dec(op["s1"])
+            bad = check_init_publication(case, op, rec, who, i, stamp=L.dec(op["s1"]) if "s1" in op else None)
+            if bad:
+                return bad, False
         elif ek != "ok":
             if snap_key(pre) != snap_key(post):
                 return (f"{who}-rejected-observation-changes-state",
@@ -776,7 +874,8 @@ def ts_shift(case):
     Returns the shift (0: none needed), or None when ints beyond 2^53 meet float timestamps in one case: Python then
     rounds the int inside `int - float`, which the model's universe cannot express; such cases are judged by the
     oracle only."""
-    tvals = [L.dec(op["t"]) for op in case["ops"] if "t" in op]
+    tvals = [L.dec(op["t"]) for op in case["ops"] if "t" in op] + \
+            [L.dec(op["s1"]) for op in case["ops"] if op["op"] == "init" and "s1" in op and case["kind"] == "timestamp"]
     big = [t for t in tvals if isinstance(t, int) and not isinstance(t, bool) and 2 ** 53 < abs(t) < 10 ** 309]
     if not big:
         return 0
@@ -840,6 +939,27 @@ def c_case(case, steps):
                 sn = f"(Some ({w}, {C.cbool(a[1])}, {C.cfloat(lv[1])}))"
             else:
                 sn = f"(Some {w})"
+        if op["op"] == "init" and rec.get("init_seen"):
+            # initialize() with the INITIALIZED_EVENT listener: the model resets (compared with what the listener read
+            # inside notify), then -- in mode 'register' -- registers the listener's seed observation
+            seen = rec["init_seen"][0]
+            w0 = c_wsnap(seen)
+            if w0 is None or len(rec["init_seen"]) != 1 or rec["init_errors"]:
+                return None
+            if ts:
+                if seen["active"][0] != "v" or seen["last_value"][0] != "v":
+                    return None
+                s0 = f"(Some ({w0}, {C.cbool(seen['active'][1])}, {C.cfloat(seen['last_value'][1])}))"
+            else:
+                s0 = f"(Some {w0})"
+            items.append(f"({cop}, {ek}, {s0})")
+            reg = "TsReg" if ts else "WReg"
+            if init_seeded(case, op, rec):
+                s1 = L.dec(op["s1"])
+                items.append(f"((@{reg} NumF {L.carg(tm(s1) if ts else s1)} {L.carg(L.dec(op['sv']))}), EOk, {sn})")
+            else:                      # a no-op step carrying the snapshot taken after initialize() returned
+                items.append(f"((@{reg} NumF ONaN (ONum 0%float)), (EExn ValueError), {sn})")
+            continue
         items.append(f"({cop}, {ek}, {sn})")
     return C.clist(items)
 
@@ -881,7 +1001,10 @@ def shrink_case(case, sig):
 def describe_ops(case):
     out = []
     for op in case["ops"]:
-        if op["op"] == "init":
+        if op["op"] == "init" and case.get("init_listener"):
+            out.append("initialize()  [INITIALIZED_EVENT listener reads the statistic inside notify"
+                       + (f" and registers ({L.show(op['s1'])}, {L.show(op['sv'])})]" if case["init_listener"] == "register" and "s1" in op else "]"))
+        elif op["op"] == "init":
             out.append("initialize()")
         elif op["op"] == "foreign":
             out.append(f"notify(<event of a type named like the expected one, defined in class Sensor>, "
@@ -1042,7 +1165,9 @@ def main(tier: str) -> int:
         what = (b or bad)[1]
         run.violation(sig, what, {"class": small["cls"], "subscribers": small["subs"], "calls": describe_ops(small),
                                   "case": strip(small),
-                                  "how": "replay the calls on pydsol.core.statistics.<class>; 'notify' delivers "
+                                  "how": "replay the calls on pydsol.core.statistics.<class>; with case.init_listener a listener of "
+                                         "StatEvents.INITIALIZED_EVENT (added after the other subscribers) reads all getters of event.content inside "
+                                         "notify and, in mode 'register', calls event.content.register(s1, sv) of that initialize; 'notify' delivers "
                                          "Event(StatEvents.WEIGHT_DATA_EVENT, (weight, value)) resp. "
                                          "TimedEvent(timestamp, StatEvents.TIMESTAMP_DATA_EVENT, value)"})
 
